@@ -453,6 +453,10 @@ def tmOfPy : Py → Option (Tm String)
   | .call (.attr (.name "self") "memoize") [.str nm, .name "t"] => (nameIx nm).map (fun n => Tm.memo n .cur)
   | .call (.attr (.name "self") "memoize") [.str nm, .bin .sub (.name "t") (.attr (.name "self") "dt")] =>
       (nameIx nm).map (fun n => Tm.memo n .prev)
+  | .call (.name "LERP") [e, .index (.attr (.name "self") "points") (.str _)] =>
+      match tmOfPy e with
+      | some x => some (.lerp x [])
+      | none => none
   | .call (.name "max") [.list [a, b]] =>
       match tmOfPy a, tmOfPy b with
       | some x, some y => some (.mx x y)
@@ -474,5 +478,20 @@ def tmOfPy : Py → Option (Tm String)
       | some o, some a, some b => some (.bin o a b)
       | _, _, _ => none
   | _ => none
+
+/-- literals and tables replaced by their text / dropped: the shape of the code, for comparison with the
+denotation of the emitted Python -/
+def Tm.shape (f : α → String) : Tm α → Tm String
+  | .lit a => .lit (f a)
+  | .int i => .int i
+  | .dt => .dt
+  | .time => .time
+  | .memo n te => .memo n te
+  | .bin o l r => .bin o (l.shape f) (r.shape f)
+  | .mx l r => .mx (l.shape f) (r.shape f)
+  | .mn l r => .mn (l.shape f) (r.shape f)
+  | .ite c a b x y => .ite c (a.shape f) (b.shape f) (x.shape f) (y.shape f)
+  | .ifStart x y => .ifStart (x.shape f) (y.shape f)
+  | .lerp e _ => .lerp (e.shape f) []
 
 end Bptk.C04
